@@ -772,6 +772,30 @@ def translate(repo):
     allf += "def encChunks : List (List EncFn) := [" + ", ".join(f"enc{k:02d}" for k in range(NCHUNK)) + "]\n"
     allf += "def dbPgns : List PgnDef := dbChunks.flatten\ndef decFns : List DecFn := decChunks.flatten\ndef encFns : List EncFn := encChunks.flatten\n\nend N2k.Gen\n"
     files["All.lean"] = allf
+    # consts.py: the two enums whose members' positions appear in the JSON rendering (`[index]`)
+    cn = hdr.replace("import N2k.Model.Tables\n", "")
+    try:
+        ctree = ast.parse(open(f"{repo}/nmea2000/consts.py").read())
+        enums = {}
+        for node in ctree.body:
+            if isinstance(node, ast.ClassDef) and node.name in ("PhysicalQuantities", "FieldTypes"):
+                names = []
+                for st in node.body:
+                    ok = (isinstance(st, ast.Assign) and len(st.targets) == 1 and isinstance(st.targets[0], ast.Name) and isinstance(st.value, ast.Tuple)
+                          and len(st.value.elts) == 1 and up(st.value.elts[0]) == "auto()")
+                    if not ok:
+                        raise Unrec(f"consts.py {node.name}: member shape {up(st)[:80]}")
+                    names.append(st.targets[0].id)
+                enums[node.name] = names
+        for k in ("PhysicalQuantities", "FieldTypes"):
+            if k not in enums:
+                raise Unrec("consts.py: enum " + k + " not found")
+    except (Unrec, OSError, SyntaxError) as e:
+        problems.append(f"consts.py: {e}")
+        enums = {"PhysicalQuantities": [], "FieldTypes": []}
+    cn += "def pqNames : List String := [" + ", ".join(lstr(x) for x in enums["PhysicalQuantities"]) + "]\n"
+    cn += "def ftNames : List String := [" + ", ".join(lstr(x) for x in enums["FieldTypes"]) + "]\n\nend N2k.Gen\n"
+    files["Consts.lean"] = cn
     return files, problems
 
 
